@@ -92,3 +92,90 @@ func Map(o interface{}) (ptr uintptr, n int, ok bool) {
 	}
 	return f.Pointer(), f.Len(), true
 }
+
+// Spare renders the contents of the spare slots (between len and cap) of a list's spine: stale
+// elements left behind by Delete/Pop. Correct code never reads them, but code that re-slices
+// into its capacity does, so they are part of the private state a sound state key must contain.
+func Spare(l interface{}) (out string, ok bool) {
+	defer func() {
+		if recover() != nil {
+			out, ok = "", false
+		}
+	}()
+	rv := concrete(l)
+	if !rv.IsValid() || rv.Kind() != reflect.Struct {
+		return "", false
+	}
+	f := rv.FieldByName("val")
+	if !f.IsValid() || f.Kind() != reflect.Slice {
+		return "", false
+	}
+	if f.Cap() == f.Len() {
+		return "", true
+	}
+	full := f.Slice3(0, f.Cap(), f.Cap())
+	b := make([]byte, 0, 16)
+	for i := f.Len(); i < f.Cap(); i++ {
+		e := full.Index(i)
+		if e.IsNil() {
+			b = append(b, '_')
+			continue
+		}
+		p := e.Elem() // pointer to the field implementation
+		if p.Kind() == reflect.Ptr && !p.IsNil() {
+			s := p.Elem()
+			if s.Kind() == reflect.Struct && s.NumField() == 1 {
+				v := s.Field(0)
+				switch v.Kind() {
+				case reflect.Int:
+					b = append(b, 'i')
+					b = append(b, []byte(itoa(v.Int()))...)
+				case reflect.Float64:
+					b = append(b, 'f')
+					b = append(b, []byte(itoa(int64(v.Float()*4)))...)
+				case reflect.String:
+					b = append(b, 's')
+					b = append(b, []byte(v.String())...)
+				case reflect.Bool:
+					if v.Bool() {
+						b = append(b, 'T')
+					} else {
+						b = append(b, 'F')
+					}
+				default:
+					b = append(b, '?')
+				}
+			} else if s.Kind() == reflect.Struct && s.NumField() == 0 {
+				b = append(b, 'n')
+			} else {
+				b = append(b, 'c')
+			}
+		} else {
+			b = append(b, 'c')
+		}
+		b = append(b, ',')
+	}
+	return string(b), true
+}
+
+func itoa(i int64) string {
+	if i == 0 {
+		return "0"
+	}
+	neg := i < 0
+	if neg {
+		i = -i
+	}
+	var buf [24]byte
+	n := len(buf)
+	for i > 0 {
+		n--
+		buf[n] = byte('0' + i%10)
+		i /= 10
+	}
+	if neg {
+		n--
+		buf[n] = '-'
+	}
+	return string(buf[n:])
+}
